@@ -79,9 +79,18 @@ CHECKS = {
              "RECEIVING wall's reflectance; hence response(A->B) = response(B->A) in every bin, every order. Lifted to "
              "the executable pipeline model (C09_model): the model's patch histograms are that recursion (pair list = "
              "matrix form, proved duplicate-free), the baked matrix satisfies reciprocity (area-ratio rule, field), and the "
-             "mono curves coincide when each point's two roles are linked and the delayed energy fits the histogram.",
-        note=TRUST + "Hypotheses of C09_model: one outgoing slot (diffuse), receiver factor = 4 x source share / area, "
-             "ceil bin = floor bin + 1 on every point-patch leg, no receiver-stage wrap (np.roll finding).",
+             "mono curves coincide when each point's two roles are linked and the delayed energy fits the histogram "
+             "(C09_model_vis: hypotheses asked of the table entries the model reads and of the patches a point sees; "
+             "the older C09_model asks them of all indices, which only reflectance 0 meets: "
+             "C09_model_diffuse_everywhere_forces_zero). Lifted further to the COMPOSED room model "
+             "(C09_room_reciprocal): room_mono A B = room_mono B A in every band and bin for a room given by its "
+             "polygons, with the role link (receiver factor = 4 x source share / area) discharged from the model of "
+             "pt_solution and the room's own areas, one visibility vector for both roles, well-formedness of the "
+             "composed scene; Instances/RoomQc.v exhibits a room (hidden patch included) meeting every hypothesis, "
+             "computes both curves, and shows the bin hypothesis is needed (curves shifted by one bin otherwise).",
+        note=TRUST + "Hypotheses of C09_room_reciprocal: one outgoing slot and per-wall constant BRDF tables (diffuse), "
+             "non-zero patch areas, ceil bin = floor bin + 1 on the legs to visible patches (from 'no leg is a multiple "
+             "of c dt' over an ordered field: C09_room_reciprocal_ordered), no receiver-stage wrap (np.roll finding).",
         technique="Coq proof (operator adjointness by induction) + extracted-model correspondence", ref="5/C09"),
     "C20": dict(
         text="Proof: patch energy / direct sound with directivity = omnidirectional value x table[nearest direction in "
@@ -209,10 +218,14 @@ CHECKS = {
         text="Proof (partial: wrap): patch term formula with nearest outgoing slot, receiver factor and attenuation, "
              "delayed by ceil bins (full strength when the delayed energy fits; refuted otherwise: np.roll, known "
              "finding), hidden patches exactly zero, receivers independent, mono = sum of patch-wise, direct sound "
-             "adds exactly its value in the bin of r/c. Correspondence on 1-4 receivers inside/outside; independent "
-             "solid-angle oracle in the search.",
-        note=TRUST + "Receiver visibility and the solid-angle factor are inputs of the model (tied in C07/C04); "
-             "solid-angle correctness of pt_solution is Gauss-Bonnet and not proved.",
+             "adds exactly its value in the bin of r/c. For the COMPOSED room model (C11_room_receiver): room_mono in "
+             "band b, bin t = sum over the patches the room's point visibility reports visible of histogram (slot "
+             "nearest to the receiver direction in the wall's frame) x pt_solution(receiver mode) x exp(-m d), cyclic "
+             "ceil-bin delay as in the code (truncated shift when the energy fits: C11_room_receiver_partial), plus the "
+             "direct sound. Correspondence on 1-4 receivers inside/outside; independent solid-angle oracle in the search.",
+        note=TRUST + "In the scene model receiver visibility and the solid-angle factor are inputs (tied in C07/C04); in "
+             "the composed room model they are computed (point-to-patch scan, pt_solution). Solid-angle correctness of "
+             "pt_solution is Gauss-Bonnet and not proved.",
         technique="Coq proof + extracted-model correspondence", ref="5/C11"),
     "C12": dict(
         text="Proof: the recursion for band b reads only band-b data (L0), and in the executable model baked factors, "
